@@ -605,6 +605,27 @@ class Eval:
     # inlining with partial evaluation of variant tests
     # ------------------------------------------------------------------ #
     specialise_on = True
+    assumed = None   # {term: variant name}: enum-typed values a rule analyses case by case
+
+    def assuming(self, term, variant):
+        """context manager: while active, every `match` on `term` (an enum-typed role such as the weights) takes only the
+        arm of `variant` — in the analysed function (use `inline_env(body, {}, 0)` for its environment) and in every
+        helper the value is handed to. Rules use it to decide a property once per variant instead of on a join."""
+        ev = self
+
+        class _A:
+            def __enter__(self_):
+                self_.saved = ev.assumed
+                ev.assumed = dict(ev.assumed or {})
+                ev.assumed[term] = variant
+                ev.fresh_ctx()
+                return ev
+
+            def __exit__(self_, *a):
+                ev.assumed = self_.saved
+                ev.fresh_ctx()
+                return False
+        return _A()
 
     def inline_env(self, cb, args, depth, path=()):
         """environment for evaluating `cb` on `args`. A `match` whose scrutinee has a KNOWN variant for
@@ -615,7 +636,7 @@ class Eval:
         if not self.specialise_on:
             return env
         sws = cb.discr_switches()
-        if not sws:
+        if not sws and not self.assumed:
             return env
         fixed = {}
         saved = (self.site_conds, self.site_terms, self.ctx)
@@ -632,6 +653,11 @@ class Eval:
                     except RecursionError:
                         continue
                     vn = variant_of(t, [n for _, n in variants])
+                    if vn is None and self.assumed:
+                        # case analysis requested by a rule: "this role has variant V" (see assuming())
+                        vn = self.assumed.get(t)
+                        if vn is not None and vn not in [n for _, n in variants]:
+                            vn = None
                     if vn is None:
                         continue
                     val = [v for v, n in variants if n == vn]
@@ -640,6 +666,25 @@ class Eval:
                     term = cb.blocks[b]["term"]
                     listed = dict((v, tg) for v, tg in term["targets"])
                     new[b] = listed.get(val[0], term["otherwise"])
+                if self.assumed:
+                    # under a case assumption, tests that became constant (`if !true`, the result of a helper whose
+                    # match was decided) are decided too
+                    dsw = set(x[0] for x in sws)
+                    for b in live:
+                        term = cb.blocks[b]["term"]
+                        if b in fixed or b in dsw or term["k"] != "switch" or term["op"]["k"] not in ("copy", "move"):
+                            continue
+                        try:
+                            t = self.operand(env, term["op"], (b, None))
+                        except RecursionError:
+                            continue
+                        neg = False
+                        while t[0] == "un" and t[1] == "Not":
+                            t, neg = t[2], not neg
+                        if t[0] == "const" and t[1] == "bool" and t[2] in (0, 1):
+                            val = (1 - t[2]) if neg else t[2]
+                            listed = dict((v, tg) for v, tg in term["targets"])
+                            new[b] = listed.get(val, term["otherwise"])
             finally:
                 self.site_conds, self.site_terms, self.ctx = saved
             if not new:
@@ -949,6 +994,28 @@ class Eval:
                 return ("opt", p, c)
             if m == "unwrap_or_else":
                 return ("call", cid, None, (a0, args[1]), site)
+        if m in ("map_or", "map_or_else", "unwrap_or", "unwrap_or_default") and a0 is not None:
+            # the set of possible results: the mapped payload (when present) and the default (when absent)
+            if m == "unwrap_or_default":
+                dflt = None
+            elif m == "map_or_else":
+                dflt = self.apply(args[1], [], site, env) if len(args) > 1 else None
+            else:
+                dflt = args[1] if len(args) > 1 else None
+            fn_ = args[2] if m in ("map_or", "map_or_else") and len(args) > 2 else None
+            if m in ("map_or", "map_or_else") and fn_ is None:
+                return None
+            if a0[0] == "none":
+                return dflt
+            o = self.as_opt(a0)
+            if o is not None:
+                _, p, c = o
+                val = self.apply_under(c, fn_, [p], site, env) if fn_ is not None else p
+                known_some = a0[0] == "agg" and a0[2] in ("Ok", "Some")
+                if known_some:
+                    return val
+                if dflt is not None:
+                    return ("phi", (val, dflt)) if val != dflt else val
         if m in ("is_err", "is_none"):
             return ("un", "Not", ("is_ok", a0))
         if m in ("is_ok", "is_some"):
